@@ -105,6 +105,33 @@ impl World {
         }
     }
 
+    /// Buffer model (C11): a collection that starts consumes the whole buffer in its first pass.
+    pub fn buf_collection_starts(&self) {
+        let mut m = self.m.borrow_mut();
+        m.buf_model.clear();
+        m.buf_pending.clear();
+        m.dropped_this_pass.clear();
+        m.nontrace_since_pass = false;
+        m.pass_count = 1;
+    }
+
+    /// A trace callback after finalizers / destructors of the same collection: the next pass has begun and has
+    /// consumed everything buffered so far.
+    pub fn buf_note_trace(m: &mut Model, stats: &std::cell::RefCell<crate::stats::Stats>) {
+        if m.nontrace_since_pass {
+            m.nontrace_since_pass = false;
+            m.pass_count += 1;
+            m.buf_pending.clear();
+            m.dropped_this_pass.clear();
+            m.buf_model.clear();
+            if m.pass_count >= 10 && m.buf_exact {
+                // the documented 10-pass cap may leave an unspecified part of the work for the next collection
+                m.buf_exact = false;
+                *stats.borrow_mut().cap_hits.entry("ten_pass_cap_buffer_model_off").or_insert(0) += 1;
+            }
+        }
+    }
+
     pub fn is_tracing_now(&self) -> Option<bool> {
         rust_cc::state::is_tracing().ok()
     }
@@ -147,6 +174,10 @@ impl World {
                 let phase = World::phase_name(&m);
                 m.faults_fired.push((Fault { kind, k }, phase.clone()));
                 m.fired_this_op = true;
+                if m.fault_op.is_none() {
+                    let live = m.objs.iter().filter(|o| o.status == Status::Live).count() as u32;
+                    m.fault_op = Some((m.op_index, live));
+                }
                 for o in m.objs.iter_mut() {
                     o.tainted = true;
                 }
@@ -253,13 +284,10 @@ pub fn cb_trace_enter(id: u32, canary: u64) {
             m.batch_open = false;
             m.trace_seen_in_call = true;
             m.objs[id as usize].processed_by_collection = true;
-            // buffer model: a new pass has consumed the whole buffer
-            if !m.dropped_this_pass.is_empty() || !m.buf_pending.is_empty() {
-                let dropped = std::mem::take(&mut m.dropped_this_pass);
-                let pend = std::mem::take(&mut m.buf_pending);
-                let _ = (dropped, pend);
+            if World::reach(&m)[id as usize] {
+                w.stats.borrow_mut().bump("traced_reachable_object");
             }
-            m.buf_model.clear();
+            World::buf_note_trace(&mut m, &w.stats);
         }
         m.frames.push(Frame { kind: FrameKind::Trace(id), collector: true, must_be_noop: false });
     }
@@ -393,6 +421,9 @@ pub fn cb_node_finalize(node: &Node) {
         return;
     }
     let collector = World::parent_is_collector(&w.m.borrow());
+    if collector {
+        w.m.borrow_mut().nontrace_since_pass = true;
+    }
     let _fg = w.push_frame(FrameKind::Finalize(id), collector, false);
     w.sample_phase(false, "Finalize::finalize");
     if !finalize_checks(w, id, "object") {
@@ -450,6 +481,9 @@ pub fn cb_node_drop(node: &Node) {
     {
         let mut m = w.m.borrow_mut();
         collector = World::parent_is_collector(&m);
+        if collector {
+            m.nontrace_since_pass = true;
+        }
         let st = m.objs[id as usize].status;
         match st {
             Status::Live => {
@@ -463,9 +497,25 @@ pub fn cb_node_drop(node: &Node) {
                     problem = Some(("O-DROP1.after-free", format!("object {} is dropped after its allocation was released", id)));
                 }
                 if collector {
-                    w.stats.borrow_mut().freed_by_collector += 1;
+                    let mut st = w.stats.borrow_mut();
+                    st.freed_by_collector += 1;
+                    let ob = &m.objs[id as usize];
+                    let slots: Vec<u32> = ob.edges.keys().copied().filter(|k| k & 0xFF00_0000 == KEY_SLOT).collect();
+                    if !slots.is_empty() {
+                        st.bump("collector_dropped_object_with_edges");
+                        let (kname, variant, ..) = STORE_KINDS[ob.store_kind as usize];
+                        if variant != "V" {
+                            st.bump("cycle_through_non_vec_position_reclaimed");
+                        }
+                        for s in slots {
+                            *st.store_reach.entry(format!("{}/{}", kname, s & 0xFFFF)).or_insert(0) += 1;
+                        }
+                    }
+                    drop(st);
+                    m.free_paths.insert(1);
                 } else {
                     w.stats.borrow_mut().freed_by_rc += 1;
+                    m.free_paths.insert(0);
                 }
             }
             Status::Unwrapped => {
@@ -595,6 +645,12 @@ pub fn cb_leaf_trace(_addr: usize) {
         return;
     }
     w.stats.borrow_mut().cb("trace-leaf");
+    {
+        let mut m = w.m.borrow_mut();
+        m.collection_this_op = true;
+        m.batch_open = false;
+        World::buf_note_trace(&mut m, &w.stats);
+    }
     if let Some(t) = w.is_tracing_now() {
         if !t {
             w.fail("O-PHASE.is_tracing", "is_tracing() == false inside Trace::trace of a leaf".to_string());
@@ -624,6 +680,9 @@ pub fn cb_leaf_finalize(addr: usize, bytes: &[u8]) {
         return;
     }
     let collector = World::parent_is_collector(&w.m.borrow());
+    if collector {
+        w.m.borrow_mut().nontrace_since_pass = true;
+    }
     let _fg = w.push_frame(FrameKind::LeafFinalize(id), collector, false);
     if let Some(true) = w.is_tracing_now() {
         w.fail("O-PHASE.is_tracing", "is_tracing() == true inside Finalize::finalize of a leaf".to_string());
@@ -651,6 +710,9 @@ pub fn cb_leaf_drop(addr: usize, bytes: &[u8]) {
     {
         let mut m = w.m.borrow_mut();
         let collector = World::parent_is_collector(&m);
+        if collector {
+            m.nontrace_since_pass = true;
+        }
         let st = m.objs[id as usize].status;
         match st {
             Status::Live => {
@@ -667,8 +729,13 @@ pub fn cb_leaf_drop(addr: usize, bytes: &[u8]) {
                 }
                 if collector {
                     w.stats.borrow_mut().freed_by_collector += 1;
+                    m.free_paths.insert(1);
                 } else {
                     w.stats.borrow_mut().freed_by_rc += 1;
+                    m.free_paths.insert(0);
+                }
+                if let ObjKind::Leaf(l) = m.objs[id as usize].kind {
+                    m.leaf_layouts_freed.insert(l);
                 }
                 m.objs[id as usize].status = Status::Dropped;
             }
@@ -721,6 +788,8 @@ pub fn cb_action(uid: u32) {
         }
         script = a.script.clone();
     }
+    let by_clean = matches!(World::nearest_lib(&w.m.borrow()), Some(LibCall::Clean));
+    w.stats.borrow_mut().bump(if by_clean { "action_run_by_clean" } else { "action_run_by_cleaner_drop" });
     let _fg = w.push_frame(FrameKind::Action(uid), false, false);
     w.sample_phase(false, "a cleaning action");
     w.fault_point(FaultKind::Action);
